@@ -68,6 +68,59 @@ RadixTexts == <<"10", "z", "Zz", "19", "1f", "0x1f", "0X1f", "101", "8", "08", "
 RadixVals == {Nm(r) : r \in (0 - 1)..38} \cup {VNumW(DToW(ND("4294967298"))), VNumW(DToW(ND("16.9"))), VNumW(WNaN), VNumW(WPosInf),
               VNumW(DToW(ND("-4294967280"))), S("16"), S("0x10"), Null, VBool(TRUE), Undef}
 
+\* ---------------- number -> text at property-name sites, numeric literals as written ----------------
+\* a number names a property through ToString wherever it is used as a key (member access, computed key, Array join),
+\* and a NumericLiteral written as a property name is named ToString of its value (ECMA-262 13.2.5.4)
+KeySites == {"keyMember", "keyComputed", "join"}
+LitForms == {"literal", "keyLiteral", "getterFound"}
+LitExp(ex, up, plus) == <<IF up THEN 69 ELSE 101>> \o (IF ex < 0 THEN <<45>> ELSE IF plus THEN <<43>> ELSE <<>>) \o DigitsOf(IF ex < 0 THEN 0 - ex ELSE ex)
+\* spellings of a non-negative finite double as a source literal: the ECMAScript text, scientific, integer mantissa with
+\* E+/E-, plain integer with ".0" / ".", fraction without the leading 0, all digits of a long integer
+Spellings(d) ==
+  IF d.c = "zero" THEN {U("0"), U("0.0"), U("0."), U(".0"), U("0e0"), U("0E+5")}
+  ELSE LET sh == DShortest(d)
+           digs == CvDigitUnits(sh.s)
+           kk == sh.k
+           nn == sh.n
+           txt == NumberLayout(digs, kk, nn)
+           sci == (IF kk = 1 THEN digs ELSE <<digs[1], 46>> \o SubSeq(digs, 2, kk)) \o LitExp(nn - 1, FALSE, FALSE)
+           man == digs \o LitExp(nn - kk, TRUE, TRUE)
+       IN {txt, sci, man}
+          \cup (IF kk <= nn /\ nn <= 21 THEN {txt \o <<46, 48>>, txt \o <<46>>} ELSE {})
+          \cup (IF -6 < nn /\ nn <= 0 THEN {Tail(txt)} ELSE {})
+          \cup (IF DIsInteger(d) /\ nn <= 25 THEN {CvDigitUnits(DTruncMag(d))} ELSE {})
+LitApplies(d) == (d.c = "zero" \/ d.c = "fin") /\ d.s = 0
+LitsOf(d) == IF LitApplies(d) THEN Spellings(d) ELSE {}
+
+\* ---------------- long digit strings (length is a dimension of the grammar) ---------------------------
+\* zeros^z sig zeros^t in a radix: digit counts around and beyond 1000 / 2000 / 4300, values that stay finite
+\* (leading zeros; binary strings of up to 1024 digits), round at 53 / 54 bits, or overflow
+Rep(c, n) == [lg_j \in 1..n |-> c]
+Ones(n) == Rep(49, n)
+LongSpecs == <<
+  [r |-> 2, sigs |-> {<<49>>, <<49, 49>>, Ones(53), Ones(54)},
+   zs |-> IF Quick THEN {0, 999} ELSE {0, 1, 999, 1000, 1999}, ts |-> IF Quick THEN {0, 970, 971, 1000} ELSE {0, 946, 947, 960, 970, 971, 999, 1000, 1023, 2000}],
+  [r |-> 10, sigs |-> {<<49>>, U("1234567890"), U("17976931348623157")},
+   zs |-> IF Quick THEN {0, 995, 1990, 4400} ELSE {0, 990, 995, 999, 1000, 1990, 2999, 4400}, ts |-> IF Quick THEN {0, 20, 292} ELSE {0, 1, 20, 291, 292, 1000}],
+  [r |-> 16, sigs |-> {U("ff"), U("1fffffffffffff"), U("3FFFFFFFFFFFFF")},
+   zs |-> IF Quick THEN {999} ELSE {998, 999, 1000, 1999}, ts |-> IF Quick THEN {0, 242, 243} ELSE {0, 1, 242, 243, 256}],
+  [r |-> 36, sigs |-> {U("zzzzzzzzzz"), U("Z")}, zs |-> IF Quick THEN {990, 999} ELSE {989, 990, 991, 999, 1000, 1998}, ts |-> {0}],
+  [r |-> 4, sigs |-> {U("3"), U("123")}, zs |-> IF Quick THEN {} ELSE {0, 999}, ts |-> {0, 500, 510, 511}],
+  [r |-> 8, sigs |-> {U("7"), U("17")}, zs |-> IF Quick THEN {} ELSE {0, 999}, ts |-> {0, 340, 341}],
+  [r |-> 32, sigs |-> {U("v"), U("1v")}, zs |-> IF Quick THEN {} ELSE {999, 1000}, ts |-> {0, 203, 204}],
+  [r |-> 3, sigs |-> {U("2"), U("1202")}, zs |-> IF Quick THEN {} ELSE {998, 1000}, ts |-> {0, 20}] >>
+LongBody(sp, sig, t) == sig \o Rep(48, t)
+LongShapes(sp) == {[z |-> z, sig |-> sig, t |-> t] : z \in sp.zs, sig \in sp.sigs, t \in sp.ts}
+IsLong(sh) == sh.z + Len(sh.sig) + sh.t >= 990
+LongSigns == {<<>>, <<45>>}
+LongText(sg, sh) == sg \o Rep(48, sh.z) \o sh.sig \o Rep(48, sh.t)
+\* radix-10 texts are also read by the parsers that take no radix
+LongCalls(sp) ==
+  {[m |-> "parseInt", a |-> <<VStr(LongText(sg, sh)), Nm(sp.r)>>] : sg \in LongSigns, sh \in {x \in LongShapes(sp) : IsLong(x)}}
+  \cup (IF sp.r = 10 THEN {[m |-> mm, a |-> <<VStr(LongText(sg, sh))>>] : mm \in {"Number", "plus", "parseFloat", "parseInt"},
+                                                                         sg \in LongSigns, sh \in {x \in LongShapes(sp) : IsLong(x)}} ELSE {})
+                  \cup (IF sp.r = 16 THEN {[m |-> "parseInt", a |-> <<VStr(sg \o <<48, 120>> \o LongText(<<>>, sh))>>] : sg \in LongSigns, sh \in {x \in LongShapes(sp) : IsLong(x)}} ELSE {})
+
 \* ---------------- Math special-value grid -----------------------------------------------------------
 MathTexts == <<"NaN", "0", "-0", "Infinity", "-Infinity", "1", "-1", "0.5", "-0.5", "1.5", "-1.5", "2.5", "-2.5", "0.49999999999999994",
                "2", "-2", "3", "1e300", "-1e300", "5e-324", "2147483648", "4294967296", "4294967295", "9007199254740992", "9007199254740991",
@@ -99,13 +152,16 @@ EnumNext ==
         \/ \E bi \in 1..Len(BodyTexts) : bi % NBuckets = cur.v /\ cur' = [g |-> "parse", v |-> bi]
         \/ \E ri \in 1..Len(RadixTexts) : ri % NBuckets = cur.v /\ cur' = [g |-> "radix", v |-> ri]
         \/ \E fn \in MathNames : Len(fn) % NBuckets = cur.v /\ cur' = [g |-> "math", v |-> fn]
+        \/ \E li \in 1..Len(LongSpecs) : li % NBuckets = cur.v /\ cur' = [g |-> "long", v |-> li]
 EnumEmit ==
   IF ph # "case" THEN TRUE
-  ELSE CASE cur.g = "fmt" -> LET d == cur.v IN PrintT(ToJson([g |-> "fmt", x |-> NumV(d), calls |-> FmtCalls(d)]))
+  ELSE CASE cur.g = "fmt" -> LET d == cur.v IN PrintT(ToJson([g |-> "fmt", x |-> NumV(d), calls |-> FmtCalls(d), sites |-> KeySites,
+                                                                    forms |-> LitForms, lits |-> LitsOf(d)]))
          [] cur.g = "parse" -> PrintT(ToJson([g |-> "parse", parsers |-> Parsers,
                                   strs |-> {w \o sg \o U(BodyTexts[cur.v]) \o sf : w \in WsPre, sg \in Signs, sf \in Suffixes}]))
          [] cur.g = "radix" -> PrintT(ToJson([g |-> "radix", str |-> U(RadixTexts[cur.v]), radixes |-> RadixVals]))
          [] cur.g = "math" -> PrintT(ToJson([g |-> "math", fn |-> cur.v, args |-> MathArgs(cur.v)]))
+         [] cur.g = "long" -> PrintT(ToJson([g |-> "long", calls |-> LongCalls(LongSpecs[cur.v])]))
 
 \* ---------------- expected behaviour of one call -----------------------------------------------------
 Expected(g, m, x, a) ==
@@ -124,6 +180,14 @@ Expected(g, m, x, a) ==
             [] m = "parseFloat" -> ParseFloat(a)
             [] m = "parseInt" -> ParseInt(a))
     [] g = "math" -> MathFn(m, a)
+    [] g = "key" -> FText(NumToText(x))                                       \* the property name / the joined element
+    [] g = "lit" -> (CASE m = "literal" -> FVal(NumV(x))                      \* a[1] spells x (LitLaws)
+                       [] m = "keyLiteral" -> FText(NumToText(x))
+                       [] m = "getterFound" -> FVal(VInt(7)))                 \* ({get <literal>() { return 7 }})[x]
+    [] g = "long" -> (CASE m = "Number" -> NumberFn(a)
+                        [] m = "plus" -> FVal(ToNumberV(a[1]))
+                        [] m = "parseFloat" -> ParseFloat(a)
+                        [] m = "parseInt" -> ParseInt(a))
 \* the relational specification on the text the implementation produced (finite receivers)
 SmallArg(a) == Len(a) = 1 /\ a[1].k = "num" /\ WIsSmallInt(a[1].w)
 RelApplies(m, x, a) ==
@@ -180,9 +244,26 @@ MathLaws(fn, a) ==
      /\ (fn = "fround" => Math1("fround", DFromW(e.v.w)) = e)
      /\ (fn \in {"min", "max"} /\ Len(a) = 2 => MathFn(fn, <<a[2], a[1]>>) = e)
      /\ (fn = "imul" /\ Len(a) = 2 => MathFn(fn, <<a[2], a[1]>>) = e)
+\* every spelling denotes the double it was made from, and the spellings of one double are distinct texts
+LitLaws(d) == \A sp \in LitsOf(d) : StrToD(sp) = d
+\* leading zeros do not change what parseInt reads; a long text is read like its short body
+LongLaws(sp) == \A sh \in {x \in LongShapes(sp) : IsLong(x) /\ x.z > 0} :
+                  ParseInt(<<VStr(LongText(<<>>, sh)), Nm(sp.r)>>) = ParseInt(<<VStr(LongBody(sp, sh.sig, sh.t)), Nm(sp.r)>>)
+\* the grid of either tier contains every length class (a class dropped from a tier fails the specification run)
+LongGridLaw ==
+  LET all == UNION {{x \in LongShapes(LongSpecs[lg_j]) : IsLong(x)} : lg_j \in 1..Len(LongSpecs)}
+      len(x) == x.z + Len(x.sig) + x.t
+  IN /\ \E x \in all : x.z = 0 /\ len(x) > 1000                                       \* more than 1000 significant digits
+     /\ \E x \in all : x.z > 0 /\ x.z < 1000 /\ x.z + Len(x.sig) > 1000 /\ x.t = 0     \* the significant digits straddle position 1000
+     /\ \E x \in all : x.z > 0 /\ x.z < 1000 /\ len(x) > 1000 /\ x.t > 0
+     /\ \E x \in all : len(x) > 2000 /\ len(x) < 4300
+     /\ \E x \in all : len(x) > 4300
+     /\ \E x \in all : len(x) <= 1000                                                  \* control below the mark
+     /\ \A lg_j \in 1..Len(LongSpecs) : LongSpecs[lg_j].zs = {} \/ \E x \in LongShapes(LongSpecs[lg_j]) : IsLong(x) /\ len(x) > 1000
 LawsHold ==
   IF ph # "case" THEN TRUE
-  ELSE CASE cur.g = "fmt" -> FmtLaws(cur.v)
+  ELSE CASE cur.g = "fmt" -> FmtLaws(cur.v) /\ LitLaws(cur.v)
+         [] cur.g = "long" -> LongLaws(LongSpecs[cur.v]) /\ LongGridLaw
          [] cur.g = "parse" -> \A w \in WsPre, sg \in Signs, sf \in Suffixes : ParseLaws(w \o sg \o U(BodyTexts[cur.v]) \o sf)
          [] cur.g = "radix" -> \A rv \in RadixVals : ParseInt(<<VStr(U(RadixTexts[cur.v])), rv>>).o = "value"
          [] cur.g = "math" -> \A a \in MathArgs(cur.v) : MathLaws(cur.v, a)
@@ -202,7 +283,7 @@ Verdict(r) ==
       rel == RelText(r.m, x, r.a, r.out.v.u)
   IN IF relapp /\ fun # rel THEN [v |-> "spec-inconsistent", dev |-> "", exp |-> e]      \* the two formulations disagree: machinery
      ELSE IF fun THEN [v |-> "pass", dev |-> "", exp |-> e]
-     ELSE [v |-> "mismatch", dev |-> ExplainFmt(r, x, e), exp |-> e]
+     ELSE [v |-> "mismatch", dev |-> IF r.g \in {"fmt", "parse", "math"} THEN ExplainFmt(r, x, e) ELSE "", exp |-> e]
 JudgeInit == /\ rec_i \in 1..Len(Recs) /\ ph = "judge" /\ cur = NoCur
              /\ LET r == Recs[rec_i]  v == Verdict(r)
                 IN PrintT(ToJson([id |-> r.id, v |-> v.v, dev |-> v.dev, exp |-> v.exp]))
